@@ -263,6 +263,7 @@ def run(ctx) -> None:
     guarded_date_args_rule(ctx, "R8", "v2version.parse_field_values_to_cinfo")
     nonempty_result_rule(ctx, "R8")
     parsed_quarter_rule(ctx, "R8", "v2version.parse_field_values_to_cinfo")
+    int_reads_rule(ctx, "R4", "v2version.parse_field_values_to_cinfo", ("year_y", "year_g", "quarter", "month", "dom", "doy", "week_w", "week_u", "week_v"))
 
     # ---------------------------------------------------------------- R5
     defaults = _parse_defaults(ctx, pv)
@@ -736,3 +737,38 @@ def part_language_band_rule(ctx, rule: str, modname: str, ref_min: T.Dict[str, s
                   f"{modname}.PART_PATTERNS[{part!r}] no longer accepts a text of the part's documented shape",
                   f"`{pats[part]}` rejects {too_narrow!r}", loc=f"src/bumpver/{modname}.py", witness={"part": part, "text": too_narrow})
     ctx.floor(rule, f"{modname} parts compared with their documented shape", n, min(len(ref_min), 25))
+
+
+def int_reads_rule(ctx, rule: str, fq: str, keys: T.Iterable[str], var: str = "fvals") -> None:
+    """Every read of a numeric match group (`fvals['quarter']`, `fvals.get('major')`) in the reader `fq` is converted with
+    int(...) before it is stored: the fields are compared, added to and formatted as numbers."""
+    prog = ctx.prog
+    fn = prog.function(fq)
+    keys = set(keys)
+    parents: T.Dict[int, ast.AST] = {}
+    for n in ast.walk(fn.node):
+        for c in ast.iter_child_nodes(n):
+            parents[id(c)] = n
+    n_reads = 0
+    for n in ast.walk(fn.node):
+        key = None
+        if isinstance(n, ast.Subscript) and isinstance(n.ctx, ast.Load) and const_str(n.slice) in keys and isinstance(n.value, ast.Name):
+            key = const_str(n.slice)
+        elif isinstance(n, ast.Call) and isinstance(n.func, ast.Attribute) and n.func.attr == "get" and n.args and const_str(n.args[0]) in keys and isinstance(n.func.value, ast.Name):
+            key = const_str(n.args[0])
+        if key is None:
+            continue
+        n_reads += 1
+        p = parents.get(id(n))
+        conv = False
+        while p is not None and not isinstance(p, ast.stmt):
+            if isinstance(p, ast.Call) and unparse(p.func) == "int":
+                conv = True
+                break
+            if isinstance(p, (ast.Compare,)):          # a membership / None test of the raw group, not a stored value
+                conv = True
+                break
+            p = parents.get(id(p))
+        ctx.check(rule, conv, f"{fq}: group '{key}' is read through int()", f"{fq}: the numeric group '{key}' is stored as text",
+                  f"`{unparse(n)}` is not wrapped in int(...): the field is later compared with / added to numbers (TypeError) or compared as text", loc=fn.loc(n), witness={"group": key})
+    ctx.floor(rule, f"numeric group reads in {fq}", n_reads, 5)
